@@ -69,7 +69,7 @@ impl<'a, T: Read + Write + Seek> PointCloudWriter<'a, T> {
         Self::validate_prototype(&prototype)?;
 
         // Calculate max number of points per packet
-        let max_points_per_packet = get_max_packet_points(&prototype);
+        let max_points_per_packet = get_max_packet_points(&prototype)?;
 
         // Prepare byte stream buffers
         let byte_streams = vec![ByteStreamWriteBuffer::new(); prototype.len()];
@@ -768,17 +768,26 @@ fn validate_return(prototype: &[Record]) -> Result<()> {
 /// Each data packet can contain up to 2^16 bytes, but we need some reserved
 /// space for header data. We also need to consider some "incomplete" bytes
 /// from record value sizes that are not a multiple of 8 bits.
-fn get_max_packet_points(prototype: &[Record]) -> usize {
+/// Fails for prototypes that are so big that not even a single point fits into a packet.
+fn get_max_packet_points(prototype: &[Record]) -> Result<usize> {
     const SAFETY_MARGIN: usize = 500;
     let point_size_bits: usize = prototype.iter().map(|p| p.data_type.bit_size()).sum();
     let bs_size_headers = prototype.len() * 2; // u16 for each byte stream header
     let headers_size = DataPacketHeader::SIZE + bs_size_headers;
     let max_incomplete_bytes = prototype.len();
     let u16_max = u16::MAX as usize;
+    if prototype.len() > u16_max {
+        Error::invalid("Prototype has too many records")?
+    }
     if point_size_bits == 0 {
         // Corner case: if all records have min=max the points need no bits at all.
         // No data packets will be written, so there is also no limit to consider.
-        return u16_max;
+        return Ok(u16_max);
     }
-    ((u16_max - headers_size - max_incomplete_bytes - SAFETY_MARGIN) * 8) / point_size_bits
+    let reserved = headers_size + max_incomplete_bytes + SAFETY_MARGIN;
+    let max_points = u16_max.saturating_sub(reserved) * 8 / point_size_bits;
+    if max_points == 0 {
+        Error::invalid("Prototype is too big, a single point does not fit into a data packet")?
+    }
+    Ok(max_points)
 }
